@@ -176,16 +176,16 @@ Jobs_C16 ==
    FlatSeq([i \in 1..NT |-> LET tg == IntTagsG[i] IN
       S2Q({CallM(op, <<"fx", tg>>, <<Enc(x), Enc(n)>>, asg) : op \in Ops4, x \in FxC16, n \in IntLm(tg), asg \in {0, 1}})
       \o S2Q({CallM(op, <<tg, "fx">>, <<Enc(n), Enc(x)>>, 0) : op \in Ops4, x \in FxC16, n \in IntLm(tg)})
-      \o FlatSeq([o \in 1..4 |-> <<Rand(<<"add", "sub", "mul", "div">>[o], <<"fx", tg>>, NR(300, 20000), Seed + 10 * i + o),
-                                   Rand(<<"add", "sub", "mul", "div">>[o], <<tg, "fx">>, NR(300, 20000), Seed + 10 * i + o + 4),
-                                   [Rand(<<"add", "sub", "mul", "div">>[o], <<"fx", tg>>, NR(150, 10000), Seed + 10 * i + o + 8) EXCEPT !.asg = 1]>>])])
+      \o FlatSeq([o \in 1..4 |-> <<Rand(<<"add", "sub", "mul", "div">>[o], <<"fx", tg>>, NR(300, 6000), Seed + 10 * i + o),
+                                   Rand(<<"add", "sub", "mul", "div">>[o], <<tg, "fx">>, NR(300, 6000), Seed + 10 * i + o + 4),
+                                   [Rand(<<"add", "sub", "mul", "div">>[o], <<"fx", tg>>, NR(150, 3000), Seed + 10 * i + o + 8) EXCEPT !.asg = 1]>>])])
    \o S2Q({CallM(op, <<"fx", "f32">>, <<Enc(x), ZToLimbs(f, 4)>>, asg) : op \in Ops4, x \in FxC16, f \in F32Vals, asg \in {0, 1}})
    \o S2Q({CallM(op, <<"f32", "fx">>, <<ZToLimbs(f, 4), Enc(x)>>, 0) : op \in Ops4, x \in FxC16, f \in F32Vals})
    \o S2Q({CallM(op, <<"fx", "f64">>, <<Enc(x), ZToLimbs(f, 4)>>, 0) : op \in Ops4, x \in FxC16, f \in F64Vals})
    \o S2Q({CallM(op, <<"f64", "fx">>, <<ZToLimbs(f, 4), Enc(x)>>, 0) : op \in Ops4, x \in FxC16, f \in F64Vals})
    \o FlatSeq([o \in 1..4 |-> LET op == <<"add", "sub", "mul", "div">>[o] IN
-         <<Rand(op, <<"fx", "f32">>, NR(2000, 80000), Seed + 200 + o), Rand(op, <<"f32", "fx">>, NR(2000, 80000), Seed + 210 + o),
-           Rand(op, <<"fx", "f64">>, NR(3000, 100000), Seed + 220 + o), Rand(op, <<"f64", "fx">>, NR(3000, 100000), Seed + 230 + o),
+         <<Rand(op, <<"fx", "f32">>, NR(2000, 40000), Seed + 200 + o), Rand(op, <<"f32", "fx">>, NR(2000, 40000), Seed + 210 + o),
+           Rand(op, <<"fx", "f64">>, NR(3000, 50000), Seed + 220 + o), Rand(op, <<"f64", "fx">>, NR(3000, 50000), Seed + 230 + o),
            [Rand(op, <<"fx", "f32">>, NR(1000, 30000), Seed + 240 + o) EXCEPT !.asg = 1]>>])
 
 (* ---- C17: landmark instances of the laws (FxLaws) as programs --------------------------------------- *)
